@@ -51,9 +51,9 @@ func init() {
 		Jobs: func(tier string) []Job {
 			jobs := []Job{{Pkg: "root", Func: "verifC02Vacuity", Vacuity: true}, {Pkg: "root", Func: "verifC02HostLevel"}}
 			type cfg struct{ nh, nn, pat, host int64 }
-			cfgs := []cfg{{1, 0, 2, 2}, {2, 0, 2, 2}, {0, 1, 2, 2}, {0, 1, 5, 2}, {1, 1, 2, 2}, {2, 1, 2, 2}, {0, 2, 2, 2}, {1, 2, 2, 2}, {1, 1, 1, 3}}
+			cfgs := []cfg{{1, 0, 2, 2}, {2, 0, 2, 2}, {0, 1, 2, 2}, {0, 1, 5, 2}, {1, 1, 2, 2}, {0, 2, 2, 2}, {1, 2, 2, 2}, {1, 1, 1, 3}}
 			if tier == "thorough" {
-				cfgs = append(cfgs, cfg{3, 0, 2, 2}, cfg{0, 3, 2, 2}, cfg{1, 2, 1, 3}, cfg{0, 2, 5, 3}, cfg{1, 1, 5, 2})
+				cfgs = append(cfgs, cfg{2, 1, 2, 2}, cfg{3, 0, 2, 2}, cfg{0, 3, 2, 2}, cfg{1, 2, 1, 3}, cfg{0, 2, 5, 3}, cfg{1, 1, 5, 2})
 			}
 			for _, c := range cfgs {
 				jobs = append(jobs, Job{Pkg: "root", Func: "verifC02", Args: []int64{c.nh, c.nn, c.pat, c.host}})
@@ -71,8 +71,8 @@ func init() {
 		AbstractHash: true,
 		MustReach:    []string{"c02.basic", "c02.host", "c02.hostlevel"},
 		Bounds: map[string]string{
-			"quick":    "0..2 hosts-file rules and 0..2 network rules (at most 3 rules together): (1..2 names of two symbolic letters, IPv4 or IPv6) and 0..2 network rules (literal pattern of symbolic bytes, fully symbolic option words and type masks under InvRule, optional $domain / ~$domain / $dnstype / $dnsrewrite); DNS request with a hostname of 2..3 symbolic bytes, symbolic record type and client name; the pooled request object has arbitrary contents; the hash is uninterpreted, plus real-hash jobs (1..2 host rules, 1+1 rules) with names over {z,q,0,2,3,8} on which the real djb2 collides; IsHostLevelNetworkRule against the documented predicate for all option words",
-			"thorough": "as quick, plus 3 host rules, 3 network rules, 1+2 rules with 3-byte hostnames, 0+2 and 1+1 rules with 5-byte patterns (shortcut table); 2+2 and 3+1 rules exhausted the per-job budget and are not claimed",
+			"quick":    "0..2 hosts-file rules and 0..2 network rules (at most 3 rules together; 2 host rules + 1 network rule only in the thorough tier): (1..2 names of two symbolic letters, IPv4 or IPv6) and 0..2 network rules (literal pattern of symbolic bytes, fully symbolic option words and type masks under InvRule, optional $domain / ~$domain / $dnstype / $dnsrewrite); DNS request with a hostname of 2..3 symbolic bytes, symbolic record type and client name of 0..1 bytes; the pooled request object has arbitrary contents; the hash is uninterpreted, plus real-hash jobs (1..2 host rules, 1+1 rules) with names over {z,q,0,2,3,8} on which the real djb2 collides; IsHostLevelNetworkRule against the documented predicate for all option words",
+			"thorough": "as quick, plus 2 host rules + 1 network rule, 3 host rules, 3 network rules, 1+2 rules with 3-byte hostnames, 0+2 and 1+1 rules with 5-byte patterns (shortcut table); 2+2 and 3+1 rules exhausted the per-job budget and are not claimed",
 		},
 		Outside:     []string{"which rule wins inside a class (C06/C07)", "the storage and its scanner (stubbed as perfect; C11)", "hostnames longer than 3 bytes", "bare-domain lines (C18)"},
 		Assumptions: []string{"scanner stub yields the harness rules in order with distinct indexes", "literal-pattern stub", "hash abstraction (lemma in C01)", "PSL model"},
